@@ -500,3 +500,22 @@ func Report(prop, engine string, seed uint64, found []Found) (unlisted int, know
 	}
 	return unlisted, known
 }
+
+// CasesOverride returns VERIF_CASES if set (used by the determinism self-test), else n.
+func CasesOverride(n int) int {
+	if s := os.Getenv("VERIF_CASES"); s != "" {
+		if v, err := strconv.Atoi(s); err == nil && v > 0 {
+			return v
+		}
+	}
+	return n
+}
+
+// WriteRunLog writes the canonical per-case log of a batch to VERIF_LOG, if set.
+func WriteRunLog(lines []string) {
+	p := os.Getenv("VERIF_LOG")
+	if p == "" {
+		return
+	}
+	os.WriteFile(p, []byte(strings.Join(lines, "\n")+"\n"), 0666)
+}
